@@ -2,8 +2,8 @@
 `SoftSurfaceEqual` (model `softEq` in Model/Solids.lean, the comparison used by
 `LocalSurfaceInserter` to de-duplicate surfaces) at ℝ: it holds exactly when EVERY coefficient
 group of the two surfaces is within the tolerance (`Close`), it is symmetric, and reflexive on
-valid surfaces.  The relative term of the vector groups uses `abs` AS WRITTEN in
-`soft_eq_distance` (`soft_eq_.abs() * fmax(norm(a), norm(b))`).
+valid surfaces.  Vector groups use the documented SoftEqual tolerance max(abs, rel·max(‖a‖, ‖b‖))
+(`soft_eq_distance` after the fix 1450523; before it the relative term used `abs`).
 -/
 import CelerVerif.Lemmas.SolidsXform
 import CelerVerif.Model.Solids
@@ -18,10 +18,10 @@ def closeS (se : SoftEq ℝ) (x y : ℝ) : Prop := |x - y| < max se.abs (se.rel 
 
 noncomputable def nrm (v : Vec3 ℝ) : ℝ := Real.sqrt (v.x * v.x + v.y * v.y + v.z * v.z)
 
-/-- vector groups: ‖v − u‖ < max(abs, abs·max(‖u‖, ‖v‖))  (abs in the relative term, as written) -/
+/-- vector groups: ‖v − u‖ < max(abs, rel·max(‖u‖, ‖v‖)) -/
 def closeV (se : SoftEq ℝ) (u v : Vec3 ℝ) : Prop :=
   Real.sqrt ((v.x - u.x) * (v.x - u.x) + (v.y - u.y) * (v.y - u.y) + (v.z - u.z) * (v.z - u.z))
-    < max se.abs (se.abs * max (nrm u) (nrm v))
+    < max se.abs (se.rel * max (nrm u) (nrm v))
 
 /-- `CylAligned::calc_origin()` -/
 def cylOrigin : Axis → ℝ → ℝ → Vec3 ℝ
@@ -258,9 +258,9 @@ theorem abs_le_sqrt3 (x y z : ℝ) : |x| ≤ Real.sqrt (x * x + y * y + z * z) :
   nlinarith [mul_self_nonneg y, mul_self_nonneg z]
 
 theorem closeV_components (se : SoftEq ℝ) (u v : Vec3 ℝ) (h : closeV se u v) :
-    |v.x - u.x| < max se.abs (se.abs * max (nrm u) (nrm v))
-    ∧ |v.y - u.y| < max se.abs (se.abs * max (nrm u) (nrm v))
-    ∧ |v.z - u.z| < max se.abs (se.abs * max (nrm u) (nrm v)) := by
+    |v.x - u.x| < max se.abs (se.rel * max (nrm u) (nrm v))
+    ∧ |v.y - u.y| < max se.abs (se.rel * max (nrm u) (nrm v))
+    ∧ |v.z - u.z| < max se.abs (se.rel * max (nrm u) (nrm v)) := by
   unfold closeV at h
   refine ⟨lt_of_le_of_lt (abs_le_sqrt3 _ _ _) h, lt_of_le_of_lt ?_ h, lt_of_le_of_lt ?_ h⟩
   · have := abs_le_sqrt3 (v.y - u.y) (v.x - u.x) (v.z - u.z)
